@@ -86,6 +86,18 @@ CHECKS['C07'] = ('model_checking', 'enum',
     'type equal those parsed from the archived block by the RFC 7230 reference.',
     'strict reader + rfc7230 reference.', '5/C07')
 
+CHECKS['C13'] = ('model_checking', 'explore',
+    'stateless DFS with deviation budget on the real Pipeline/ItemQueue/Producer/Worker under a '
+    'virtual asyncio loop',
+    'Every schedule of K<=2 (3 thorough) items through T<=2 instrumented tasks with initial '
+    'concurrency 1-3, optional source latency and one failing task or source call: all completion '
+    'orders at quiescence, plus early completions, stop() and concurrency changes (incl. pausing) '
+    'within a deviation budget (1 quick, 2 thorough). Oracle from the (task,item) start/end log: '
+    'order, at-most-once, exactly-once without stop, no unsupplied item, no start after stop, '
+    'failure surfaces, process() always returns (deadlock/busy-loop detection).',
+    'asyncio FIFO semantics; asyncio.wait result order owned by the explorer; K<=3, T<=2.',
+    '5/C13')
+
 NOT_YET = {}
 
 
